@@ -53,7 +53,12 @@ def gen():
         st.tuples(st.just("restore"), st.integers(0, 10)), st.tuples(st.just("restore"), st.integers(0, 10)),
         st.tuples(st.just("seed"), st.integers(0, 1000)),
     ).map(list)
-    return st.fixed_dictionaries({"spec": gg.spec_strategy(), "ops": st.lists(op, min_size=1, max_size=40)})
+    # macro: assignment with auto-update off, immediately followed by a targeted update (then sometimes a full update)
+    probe = st.tuples(st.integers(0, 50), st.integers(0, 40), st.lists(st.integers(0, 200), min_size=1, max_size=2), st.booleans()).map(
+        lambda t: [["auto", False], ["assign", t[0], t[1], "node"], ["update_names", t[2]]] + ([["update"]] if t[3] else []))
+    block = st.one_of(op.map(lambda o: [o]), op.map(lambda o: [o]), probe)
+    ops = st.lists(block, min_size=1, max_size=24).map(lambda bl: [o for b in bl for o in b][:40])
+    return st.fixed_dictionaries({"spec": gg.spec_strategy(), "ops": ops})
 
 
 def eq_exact(a, b) -> bool:
